@@ -204,7 +204,7 @@ theorem allEntry_plain (s : Str) (h : plain s = true) : allEntry s = s := by
   -- rstrip("\n"): the last character is the quote
   have e1 : rstripChars ('\'' :: (s ++ ['\''])) ['\n'] = '\'' :: (s ++ ['\'']) := by
     unfold rstripChars
-    simp [List.reverse_append, List.dropWhile]
+    simp [List.reverse_append]
   rw [e1]
   -- strip("'")
   have e2 : stripChars ('\'' :: (s ++ ['\''])) ['\''] = s := by
@@ -218,7 +218,7 @@ theorem allEntry_plain (s : Str) (h : plain s = true) : allEntry s = s := by
       have hc := plainChar_facts c ((List.all_eq_true.mp h) c (by simp))
       have h2 : c ≠ '\'' := hc.2.1
       have : List.dropWhile (fun x => ['\''].contains x) (c :: r ++ ['\'']) = c :: r ++ ['\''] := by
-        simp [List.dropWhile, h2]
+        simp [h2]
       rw [this]
       unfold rstripChars
       have : (c :: r ++ ['\'']).reverse = '\'' :: (c :: r).reverse := by simp
